@@ -209,7 +209,8 @@ def check(prop, tier, only):
         for ck in ("seq-rwd", "seq-tm1"):
             c = counters[ck]
             for k in ("scopes_in_which_the_stack_grew_at_least_twice", "reacquisitions_after_initializer_destroyed",
-                      "bad_allocation_size_exceptions", "upstream_failures_injected_and_hit", "acquisitions_after_a_failed_one"):
+                      "bad_allocation_size_exceptions", "upstream_failures_injected_and_hit", "acquisitions_after_a_failed_one",
+                      "scopes_closed_with_a_shrink_to_fit_request", "enclosing_allocator_checked_active_after_inner_close"):
                 if c.get(k, 0) == 0:
                     errors.append(f"vacuous: sequential part {ck} never saw '{k}'")
     wall = time.time() - t0
